@@ -2,7 +2,8 @@
 
 Harness: checks/e2e.py.  Templates with container trees: T4 (depth 4, fan-out 3, abstract flags, nested container reused twice,
 criteria on user data and on a value that is 0, an ambiguous pair, an abstract dead end, a concrete early stop), T3 (two-level
-inheritance through a nested BooleanExpression), the bundled contrived inheritance document and test_xtce.xml.
+inheritance through a nested BooleanExpression), T6 (children selected by two-parameter conditions whose operands use different value
+selectors, re-decoding a header field), the bundled contrived inheritance document and test_xtce.xml.
 The obligations that matter here: which packets are recognised, the order of the decoded names (parents before children, nested
 containers expanded in place), the header / user-data views, and the partial data of unrecognised packets.
 """
@@ -18,7 +19,7 @@ META = {
              "decoded so far when an abstract container has no satisfied child or any container has several, and simply end at a concrete "
              "container with no satisfied child.",
     "trusted": "as C01",
-    "bounds": {"quick": {"templates": {"T4": [9, 10], "T3": [16], "JPSS_CONTRIVED": [71]}},
+    "bounds": {"quick": {"templates": {"T4": [9, 10], "T3": [16], "T6": [12], "JPSS_CONTRIVED": [71]}},
                "thorough": {"templates": {"T4": [8, 9, 10, 11], "T3": [15, 16, 17], "JPSS_CONTRIVED": [71], "JPSS": [71], "T1": [19]}}},
     "stubs": ["as C01"],
     "outside_claim": ["container trees outside the listed templates", "NextContainer / CustomAlgorithm criteria (unsupported by the library)"],
@@ -35,10 +36,11 @@ def J(name, template, lens, flagsets=(3,), split=16, chunk=30):
 
 def jobs(tier):
     if tier == "quick":
-        return [J("T4-9", "T4", [9]), J("T4-10", "T4", [10], flagsets=(0, 3)), J("T3-16", "T3", [16], flagsets=(2,)), J("JPSSC-71", "JPSS_CONTRIVED", [71])]
+        return [J("T4-9", "T4", [9]), J("T4-10", "T4", [10], flagsets=(0, 3)), J("T3-16", "T3", [16], flagsets=(2,)), J("T6-12", "T6", [12], flagsets=(3,)),
+                J("JPSSC-71", "JPSS_CONTRIVED", [71])]
     out = [J(f"T4-{n}", "T4", [n], flagsets=(0, 1, 2, 3)) for n in (8, 9, 10, 11)]
     out += [J(f"T3-{n}", "T3", [n], flagsets=(1, 2)) for n in (15, 16, 17)]
-    out += [J("JPSSC-71", "JPSS_CONTRIVED", [71], flagsets=(0, 3)), J("JPSS-71", "JPSS", [71], flagsets=(2,)), J("T1-19", "T1", [19], flagsets=(2,))]
+    out += [J("T6-12", "T6", [12], flagsets=(0, 3)), J("T6-13", "T6", [13], flagsets=(3,)), J("T7-8", "T7", [8], flagsets=(3,)), J("JPSSC-71", "JPSS_CONTRIVED", [71], flagsets=(0, 3)), J("JPSS-71", "JPSS", [71], flagsets=(2,)), J("T1-19", "T1", [19], flagsets=(2,))]
     return out
 
 
